@@ -61,6 +61,27 @@ def run_configs(ctx, scs, configs):
     return out
 
 
+def lock_assertion_fires(sc):
+    """does the debugging assertion of Lock.__aexit__ fail while this scenario runs (known finding D14)?"""
+    from usim._primitives.locks import Lock
+    from harness import dsl
+    hit = []
+    orig = Lock.__aexit__
+
+    async def wrapped(self, exc_type, exc_val, exc_tb):
+        try:
+            return await orig(self, exc_type, exc_val, exc_tb)
+        except AssertionError:
+            hit.append(1)
+            raise
+    Lock.__aexit__ = wrapped
+    try:
+        dsl.run_scenario(sc)
+    finally:
+        Lock.__aexit__ = orig
+    return bool(hit)
+
+
 def differential(ctx, scs, impl):
     configs = CONFIGS + (THOROUGH_EXTRA if ctx.tier == 'thorough' else [])
     res = run_configs(ctx, scs, configs)
@@ -79,8 +100,9 @@ def differential(ctx, scs, impl):
             if other != tr:
                 finding = None
                 if '-O' in name or name.endswith('O') or 'O+' in name:
-                    # the only accepted difference: the internal assertion of Lock.__aexit__ (known finding D14)
-                    if tr[-2][1:3] == [91, 20] or [20] in [e[-1:] for e in tr if len(e) > 2 and e[1] in (3, 91)]:
+                    # the only accepted difference: the internal assertion of Lock.__aexit__ fired in the default
+                    # configuration (known finding D14) -- detected by re-running with that method wrapped
+                    if lock_assertion_fires(sc):
                         finding = 'D14'
                 ctx.fail({'scenario': sc, 'configuration': name, 'default_trace': tr, 'other_trace': other},
                          'trace under configuration %s differs from the default configuration' % name,
